@@ -1,5 +1,6 @@
-\* trace validation against the code as pinned (both Fixed* constants FALSE)
+\* trace validation against the code as pinned (the two open findings as pinned, the channel-select fix in)
 CONSTANTS
+  FixedChannelSelect = TRUE
   FixedWindowRaw = FALSE
   FixedWatchdogRestart = FALSE
 SPECIFICATION TraceSpec
